@@ -2,6 +2,7 @@ package rules
 
 import (
 	"go/token"
+	"go/types"
 	"strings"
 
 	"golang.org/x/tools/go/ssa"
@@ -309,6 +310,7 @@ func runC10(c *Ctx) {
 	}
 	c.c10Slurp()
 	c.c10EverySessionRead()
+	c.c10NoArmedDeadline()
 
 	// ---------- R4: order on the exceeded arm
 	if csc := c.mustMethod("C10.R4", "wire", "Session", "consumeSingleCommand"); csc != nil {
@@ -521,19 +523,38 @@ func (c *Ctx) c10EverySessionRead() {
 			}
 		}
 	}
-	startup := c.serveRegion()
+	// start-up phase: serve's region before the command loop, and whatever the authentication strategies reach
+	startup := map[*ssa.Function]bool{}
+	for fn := range c.serveRegion() {
+		startup[fn] = true
+	}
+	var walkS func(fn *ssa.Function)
+	walkS = func(fn *ssa.Function) {
+		if fn == nil || startup[fn] || session[fn] || !c.P.InScope(fn) {
+			return
+		}
+		startup[fn] = true
+		for _, ci := range core.Calls(fn) {
+			walkS(core.StaticCallee(ci))
+		}
+		for _, a := range fn.AnonFuncs {
+			walkS(a)
+		}
+	}
+	if as := c.P.Named("wire", "AuthStrategy"); as != nil {
+		for _, fn := range c.P.ScopeFuncs() {
+			if types.Identical(fn.Signature, as.Underlying()) {
+				walkS(fn)
+			}
+		}
+	}
 	for _, fn := range c.P.ScopeFuncs() {
 		if session[fn] || c.P.InPkg(fn, "buffer") {
 			continue
 		}
 		for _, ci := range core.Calls(fn) {
 			if isReaderMethod(ci, "ReadTypedMsg") || isReaderMethod(ci, "ReadUntypedMsg") {
-				host := fn
-				for host.Parent() != nil {
-					host = host.Parent()
-				}
-				isAuth := core.FuncIs(host, pkWire, "ClearTextPassword")
-				R.Check(startup[fn] || isAuth, "C10.R6", fkey(fn)+":frame-read-phase", c.at(ci), "every frame read outside the session phase belongs to the start-up phase (where an oversized message ends the connection)", "function of the start-up region / authentication strategy", "a frame read in "+fname(fn)+" belongs neither to the session phase nor to start-up: undecided")
+				R.Check(startup[fn], "C10.R6", fkey(fn)+":frame-read-phase", c.at(ci), "every frame read outside the session phase belongs to the start-up phase (where an oversized message ends the connection)", "function of the start-up region / authentication strategy", "a frame read in "+fname(fn)+" belongs neither to the session phase nor to start-up: undecided")
 			}
 		}
 	}
@@ -612,4 +633,75 @@ func (c *Ctx) sameErr(a, v ssa.Value) bool {
 		}
 	}
 	return false
+}
+
+// c10NoArmedDeadline (R4): recovering from an oversized message leaves the connection as it was: a read / write
+// deadline armed on the connection in the session phase is disarmed again (SetXDeadline(time.Time{})) on every path
+// to a return - otherwise the message after the skipped one is processed normally only if it arrives in time.
+func (c *Ctx) c10NoArmedDeadline() {
+	R := c.R
+	isDeadline := func(ci ssa.CallInstruction) (armed, ok bool) {
+		cc := ci.Common()
+		if !cc.IsInvoke() || !strings.HasPrefix(cc.Method.Name(), "Set") || !strings.HasSuffix(cc.Method.Name(), "Deadline") {
+			return false, false
+		}
+		if !core.IsNamed(cc.Value.Type(), "net", "Conn") {
+			return false, false
+		}
+		arg := cc.Args[0]
+		if k, isConst := arg.(*ssa.Const); isConst && k.Value == nil {
+			return false, true // the zero time.Time: disarm
+		}
+		if u, isLoad := arg.(*ssa.UnOp); isLoad {
+			if a, isAlloc := u.X.(*ssa.Alloc); isAlloc {
+				stored := false
+				for _, r := range core.Referrers(a) {
+					if _, isStore := r.(*ssa.Store); isStore {
+						stored = true
+					}
+				}
+				if !stored {
+					return false, true // var zero time.Time
+				}
+			}
+		}
+		return true, true
+	}
+	n := 0
+	for fn := range c.connectionScope() {
+		if !c.P.InPkg(fn, "wire") {
+			continue
+		}
+		for _, ci := range core.Calls(fn) {
+			armed, ok := isDeadline(ci)
+			if !ok || !armed {
+				continue
+			}
+			n++
+			disarmBlocks := map[*ssa.BasicBlock]bool{}
+			for _, other := range core.Calls(fn) {
+				if a, ok := isDeadline(other); ok && !a && other.Common().Method.Name() == ci.Common().Method.Name() {
+					disarmBlocks[other.Block()] = true
+				}
+			}
+			left := false
+			seen := map[*ssa.BasicBlock]bool{}
+			var walk func(b *ssa.BasicBlock, first bool)
+			walk = func(b *ssa.BasicBlock, first bool) {
+				if seen[b] || (!first && disarmBlocks[b]) {
+					return
+				}
+				seen[b] = true
+				if _, isRet := b.Instrs[len(b.Instrs)-1].(*ssa.Return); isRet {
+					left = true
+				}
+				for _, s := range b.Succs {
+					walk(s, false)
+				}
+			}
+			walk(ci.Block(), true)
+			R.Check(!left, "C10.R4", fkey(fn)+":deadline-left-armed:"+ci.Common().Method.Name(), c.at(ci), "a deadline armed on the connection while serving a message is disarmed before the function returns", "every path to a return passes the matching Set*Deadline(time.Time{})", "a connection deadline is armed and a return is reachable without disarming it: the messages after this one are processed normally only if they arrive before the deadline (afterwards every read fails and the connection is dropped)")
+		}
+	}
+	R.Count("deadline_arming_sites", n)
 }
